@@ -194,11 +194,50 @@ func ruleCandidates(r *Run) {
 				}
 			}
 		}
-		if len(mus) != 1 {
+		// the insertion, or the call of a helper of the package that makes it on every success path
+		// (vctx.addVersion(versionMap, kv)): the helper's arguments stand for the inserted value
+		var mu ssa.Instruction
+		var muVals []ssa.Value
+		if len(mus) == 1 {
+			mu, muVals = mus[0], []ssa.Value{mus[0].Value}
+		}
+		if len(mus) == 0 {
+			nh := 0
+			for _, c := range calls(f) {
+				g := staticCallee(c)
+				cc, isCall := c.(*ssa.Call)
+				if g == nil || !isCall || g == f || g.Pkg != f.Pkg || len(g.Blocks) == 0 {
+					continue
+				}
+				isIns := func(x ssa.Instruction) bool {
+					m, ok := x.(*ssa.MapUpdate)
+					if !ok || !typeIs(m.Map.Type(), "datastore", "kvVersions") {
+						return false
+					}
+					_, isParam := m.Map.(*ssa.Parameter)
+					return isParam
+				}
+				has := false
+				for _, gb := range g.Blocks {
+					for _, gi := range gb.Instrs {
+						if isIns(gi) {
+							has = true
+						}
+					}
+				}
+				if has && findPath(g, nil, isIns, successExit, nil) == nil {
+					mu, muVals = cc, cc.Call.Args
+					nh++
+				}
+			}
+			if nh != 1 {
+				mu = nil
+			}
+		}
+		if mu == nil {
 			r.undecided("VersionedCtx."+mname+":candidate-map", fmt.Sprintf("expected one insertion into the candidate map, found %d", len(mus)))
 			continue
 		}
-		mu := mus[0]
 		scc := loopOf(mu.Block())
 		var h *ssa.BasicBlock
 		if scc != nil {
@@ -222,9 +261,15 @@ func ruleCandidates(r *Run) {
 			mname+" can leave the loop over the stored versions early and still succeed: later candidates never reach the ancestry walk", pos)
 		// distinct entry per candidate
 		bad := ""
-		for d := range dataDeps(mu.Value) {
-			if al, ok := d.(*ssa.Alloc); ok && al.Heap && !scc[al.Block()] {
-				bad = w.pos(al.Pos())
+		for _, mv := range muVals {
+			deps := map[ssa.Value]bool{mv: true}
+			for d := range dataDeps(mv) {
+				deps[d] = true
+			}
+			for d := range deps {
+				if al, ok := d.(*ssa.Alloc); ok && al.Heap && !scc[al.Block()] {
+					bad = w.pos(al.Pos())
+				}
 			}
 		}
 		r.check(bad == "", "VersionedCtx."+mname+":one-entry-per-candidate",
